@@ -21,6 +21,8 @@ type c07Params struct {
 	// Interrupt: instead of letting the transfers finish, stop-and-delete arrives before every 5th scheduler
 	// step (client side; for uploads the server does the deleting): what existed before must survive that too
 	Interrupt bool `json:"interrupt,omitempty"`
+	// Relayed: histories of two transfers through one relay into the same destination (first with -y, then without)
+	Relayed bool `json:"relayed,omitempty"`
 }
 
 // c07Fresh is the reference for the fresh-name rule: name, else the first of name.0 .. name.999
@@ -131,6 +133,28 @@ func c07Run(j vs.Job) *vs.JobResult {
 	j.Decode(&p)
 	r := &vs.JobResult{Outcomes: map[string]int64{}}
 	states := map[uint64]struct{}{}
+	if p.Relayed {
+		// two transfers through the same relay into one destination: with -y, then without: the second one must not inherit the first one's overwrite
+		for _, wp := range p.W {
+			w, res := runWorld(wp, vs.Config{Trace: j.Replay != nil}, nil, nil, nil)
+			r.Execs++
+			r.Nontrivial++
+			v := ""
+			if len(res.Next) != len(wp.Then) {
+				v = "the history did not run to its end"
+			} else if !strings.HasPrefix(serverSaid(res.SrvStdout), "Saved ") || !strings.HasPrefix(res.ClientExit, "Saved ") {
+				v = fmt.Sprintf("the first transfer (with -y) did not succeed: server said %q, client exit %q", clipStr(serverSaid(res.SrvStdout), 80), clipStr(res.ClientExit, 80))
+			} else {
+				last := res.Next[len(res.Next)-1]
+				last.Sched = res.Sched // one execution, one schedule record
+				v = c07Oracle(w, last)
+			}
+			if v != "" {
+				r.Violate("c07:relayed:"+wp.String(), wp.String()+": last transfer of the history: "+v, wp)
+			}
+		}
+		return r
+	}
 	if p.Interrupt {
 		for _, wp := range p.W {
 			w0, res0 := runWorld(wp, vs.Config{}, nil, nil, nil)
@@ -268,7 +292,7 @@ func init() {
 		Level: "exploration",
 		Rule: "prior destination state (4^3 kinds at name/name.0/name.1, full and gapped name.N series, long names) x incoming set (file, directory, two paths with one base name, directory plus file) " +
 			"x protocol x directory mode x receiving role, and the same sources transferred three times in a row; each a full transfer through the real code; distinct by construction; " +
-			"24 collision configurations additionally interrupted by stop-and-delete before every 5th scheduler step (pre-existing entries must survive)",
+			"16 histories through one or two relays (a transfer with -y, then one without, into the same destination); 24 collision configurations additionally interrupted by stop-and-delete before every 5th scheduler step (pre-existing entries must survive)",
 		Assumptions: []string{"same trusted base as C01 (server main replica, default schedule)", "snapshots compare type, size, SHA-256, permission bits and file mtime of every pre-existing entry"},
 		QuickBudget: 100, ThoroughBudget: 600, DiedIsViolation: true,
 		Jobs: func(tier string) []vs.Job {
@@ -295,6 +319,16 @@ func init() {
 			for i := 0; i < len(intr); i += 2 {
 				jobs = append(jobs, vs.MkJob(fmt.Sprintf("interrupted %d-%d", i, i+2), c07Params{W: intr[i : i+2], Interrupt: true}))
 			}
+			var rel []wParams
+			for _, dir := range []string{"down", "up"} {
+				for _, relays := range []int{1, 2} {
+					for _, tree := range []string{"small3", "one:T:300"} {
+						rel = append(rel, wParams{Dir: dir, Relays: relays, Tree: tree, Overwrite: true, Timeout: 3, Then: []wParams{{Dir: dir, Tree: tree, DstSame: true}}},
+							wParams{Dir: dir, Relays: relays, Tree: tree, Overwrite: true, Timeout: 3, Then: []wParams{{Dir: dir, Tree: tree, DstSame: true, Overwrite: true}, {Dir: dir, Tree: tree, DstSame: true}}})
+					}
+				}
+			}
+			jobs = append(jobs, vs.MkJob("relayed histories", c07Params{W: rel, Relayed: true}))
 			for i := 0; i < len(hist); i += 4 {
 				e := i + 4
 				if e > len(hist) {
